@@ -338,12 +338,6 @@ def run(tier, seed, replay=None):
     t_start = time.time()
     rng = random.Random(seed * 1000003 + sum(map(ord, PROP)))
     known, fixed = core.load_findings()
-    extra_known = os.environ.get("VERIF_KNOWN_EXTRA")      # to try proposed lines (fixes/C19-known.txt) before they are merged
-    if extra_known and os.path.exists(extra_known):
-        for line in open(extra_known):
-            m = re.match(r"known:\s+property=(\S+)\s+class=(\S+)\s+(.*)", line.strip())
-            if m:
-                known.append({"property": m.group(1), "class": m.group(2), "text": m.group(3)})
     known = [k for k in known if k["property"] == PROP]
     violations, known_hits = [], {}
 
@@ -497,8 +491,8 @@ def run(tier, seed, replay=None):
     ev = {"property_id": PROP, "tier": "thorough" if tier == "thorough" else "quick", "seed": seed, "level": "proof",
           "coverage": cov, "assumptions": ASSUMPTIONS, "wall_s": round(time.time() - t_start, 2),
           "violations": len(violations)}
-    core.ensure_dir(os.path.join(core.VERIF, "evidence"))
-    with open(os.path.join(core.VERIF, "evidence", PROP + ".json"), "w") as f:
+    core.ensure_dir(core.EVIDENCE_DIR)
+    with open(os.path.join(core.EVIDENCE_DIR, PROP + ".json"), "w") as f:
         json.dump(ev, f, indent=1)
 
     for cls, (k, n) in sorted(known_hits.items()):
